@@ -133,6 +133,30 @@ pub fn iter_adaptors(_args: &[String]) -> String {
             }
         }
     }
+    {
+        // write_all through a sink that takes 4 bytes per call and fails once 10 bytes are in: the bar counts what reached the sink
+        struct Disk { got: usize, cap: usize }
+        impl std::io::Write for Disk {
+            fn write(&mut self, b: &[u8]) -> std::io::Result<usize> {
+                if self.got >= self.cap { return Err(std::io::Error::new(std::io::ErrorKind::Other, "disk full")); }
+                let n = b.len().min(4).min(self.cap - self.got);
+                self.got += n;
+                Ok(n)
+            }
+            fn flush(&mut self) -> std::io::Result<()> { Ok(()) }
+        }
+        use std::io::Write as _;
+        for (cap, len) in [(10usize, 25usize), (100, 25), (3, 8)] {
+            let pb = ProgressBar::hidden();
+            let mut w = pb.wrap_write(Disk { got: 0, cap });
+            let r = w.write_all(&vec![7u8; len]);
+            let accepted = len.min(cap) as u64;
+            tried += 1;
+            if r.is_ok() != (cap >= len) || pb.position() != accepted {
+                return fail("C17 write_all counts the bytes the sink accepted, also when it fails part-way", format!("sink capacity {} bytes, 4 per call; write_all of {} bytes: result ok={} position {} expected {}", cap, len, r.is_ok(), pb.position(), accepted));
+            }
+        }
+    }
     // ---- Read: short reads, errors, read_exact, read_to_string
     let data: Vec<u8> = (0..97u8).collect();
     for chunks in [vec![1usize], vec![5, 0, 3], vec![64], vec![2, usize::MAX, 4], vec![usize::MAX]] {
